@@ -28,4 +28,27 @@ theorem inv_reach {addr0 : Nat → Nat} {s} (h : Reach addr0 s) : Inv s := by
   | init => exact inv_init addr0
   | step _ hs ih => exact inv_step ih hs
 
+/-- every registration has an owner with a reason: the channel is joined under that address, or a
+`Join` call of the channel that asked for it is in flight.  (A call that failed, was cancelled or gave
+up before it queued its request leaves nothing behind.) -/
+def Owned (s : St) : Prop :=
+  ∀ a c, s.managed a = some c → (a = s.cur c ∧ s.joined c = true) ∨ (a = s.req c ∧ s.jpc c ≠ .idle)
+
+theorem owned_init (addr0 : Nat → Nat) : Owned (init addr0) := by
+  intro a c h; simp [init] at h
+
+theorem owned_step {s a s'} (h : Owned s) (hs : step s a = some s') : Owned s' := by
+  unfold Owned at *
+  cases a <;> simp only [step] at hs
+  case message cs => simp at hs; subst hs; exact h
+  case unrelated => simp at hs; subst hs; exact h
+  all_goals
+    (split at hs <;> (try split at hs) <;> (try split at hs) <;> (try simp at hs) <;> (try subst hs) <;>
+      (try (intro a' c' hm; have := h a' c'; (try simp only [upd] at *); grind)))
+
+theorem owned_reach {addr0 : Nat → Nat} {s} (h : Reach addr0 s) : Owned s := by
+  induction h with
+  | init => exact owned_init addr0
+  | step _ hs ih => exact owned_step ih hs
+
 end XmppModel.Muc
